@@ -118,6 +118,32 @@ def witnesses(oc, prop, workdir):
     return traces
 
 
+def bundle_layout_model(oc, tier, workdir):
+    """C06 design model: index arithmetic of Bundle (prefix sums, Hessian block placement) checked by TLC for every
+    composition up to MaxLen; two spec mutants must be rejected."""
+    info = []
+    for variant, must_hold in (("code", True), ("rep_for_dof", False), ("hess_col", False)):
+        cfg = os.path.join(workdir, f"BundleLayout_{variant}.cfg")
+        maxlen = (3 if tier == "quick" else 4) if must_hold else 2
+        with open(cfg, "w") as fh:
+            fh.write(f'CONSTANTS\n  MaxLen = {maxlen}\n  Variant = "{variant}"\nINIT Init\nNEXT Next\nINVARIANT LayoutOK\nINVARIANT HessOK\nCHECK_DEADLOCK FALSE\n')
+        r = V.run_tlc("BundleLayout", cfg, workdir, workers=4, timeout=1800)
+        ok = "No error has been found" in r["out"]
+        viol = "is violated" in r["out"]
+        if not ok and not viol:
+            raise V.ToolFailure("TLC failed on BundleLayout: " + r["out"][-1500:])
+        oc.states += r["distinct"]
+        oc.transitions += max(r["states"] - 1, 0)
+        info.append({"model": "BundleLayout", "variant": variant, "MaxLen": maxlen, "distinct_states": r["distinct"],
+                     "result": "holds" if ok else "violated"})
+        if must_hold and not ok:
+            oc.bad_step({"clause": "C06.blocks.model", "op": "model", "stratum": variant, "err": "layout invariant violated", "tol": "exact"},
+                        {"family": "lie", "model": "BundleLayout", "tlc_tail": r["out"][-3000:]})
+        if not must_hold and ok:
+            raise V.ToolFailure(f"BundleLayout spec mutant {variant} was not rejected: the invariants are vacuous")
+    oc.extra["design_models"] = info
+
+
 def check(prop, tier, seed, replay=None):
     plan = PLAN[prop]
     oc = V.Outcome(prop, tier, seed)
@@ -155,6 +181,7 @@ def check(prop, tier, seed, replay=None):
             run_harness(exe, ["--n", "1" if tier == "quick" else "12", "--seed", str(seed)], out)
             traces.append((out, {"family": "lie", "harness": "derivs", "seed": seed}))
         if prop == "C06":
+            bundle_layout_model(oc, tier, workdir)
             # dynamically sized Eigen vectors (sizes 0..6) through the free-function interface
             exe = V.build_one("lie_dyn.cpp", [])
             out = os.path.join(workdir, "dyn.ndjson")
